@@ -78,14 +78,15 @@ RECURSIVE FoldEl(_, _, _, _, _)
 FoldEl(st, ops, i, chc, mode) == IF i > Len(ops) THEN st ELSE FoldEl(ElOp(st, ops[i], chc, mode), ops, i + 1, chc, mode)
 
 \* ---- start tag re-serialisation -------------------------------------------------------------------------------
-\* attributes of the source tag: [n (lower-case name), raw (source bytes name..value incl. closing quote), v]
+\* attributes of the source tag: [n (lower-case name), sn (the name as spelled in the source: a value set on an
+\* existing attribute keeps that spelling), raw (source bytes name..value incl. closing quote), v]
 SrcAttrs(tag) ==
   LET rt == TokenizeFrom(tag, "none", FALSE, "Data", <<>>, FALSE).toks[1] IN
   [i \in 1..Len(rt.attrs) |->
      LET a == rt.attrs[i]
          quoted == a[3] > 0 /\ tag[a[3]] \in {34, 39}
          rawEnd == IF a[3] = 0 /\ a[4] = 0 THEN a[2] ELSE IF quoted THEN a[4] + 1 ELSE a[4]
-     IN [n |-> LowerSeq(SubSeq(tag, a[1] + 1, a[2])), raw |-> SubSeq(tag, a[1] + 1, rawEnd), v |-> SubSeq(tag, a[3] + 1, a[4]), touched |-> FALSE]]
+     IN [n |-> LowerSeq(SubSeq(tag, a[1] + 1, a[2])), sn |-> SubSeq(tag, a[1] + 1, a[2]), raw |-> SubSeq(tag, a[1] + 1, rawEnd), v |-> SubSeq(tag, a[3] + 1, a[4]), touched |-> FALSE]]
 SrcName(tag) == LET rt == TokenizeFrom(tag, "none", FALSE, "Data", <<>>, FALSE).toks[1] IN SubSeq(tag, rt.nm[1] + 1, rt.nm[2])
 SrcSlash(tag) == TokenizeFrom(tag, "none", FALSE, "Data", <<>>, FALSE).toks[1].sc
 
@@ -93,8 +94,8 @@ RECURSIVE FirstN(_, _, _)
 FirstN(attrs, ln, i) == IF i > Len(attrs) THEN 0 ELSE IF attrs[i].n = ln THEN i ELSE FirstN(attrs, ln, i + 1)
 TagEdit(st, ed) ==
   LET ln == LowerSeq(ed.n)  idx == FirstN(st.attrs, ln, 1) IN
-  CASE ed.op = "set_attr" -> IF idx # 0 THEN [st EXCEPT !.attrs[idx] = [n |-> ln, raw |-> <<>>, v |-> ed.v, touched |-> TRUE]]
-                             ELSE [st EXCEPT !.attrs = Append(@, [n |-> ln, raw |-> <<>>, v |-> ed.v, touched |-> TRUE])]
+  CASE ed.op = "set_attr" -> IF idx # 0 THEN [st EXCEPT !.attrs[idx] = [n |-> ln, sn |-> @.sn, raw |-> <<>>, v |-> ed.v, touched |-> TRUE]]
+                             ELSE [st EXCEPT !.attrs = Append(@, [n |-> ln, sn |-> ln, raw |-> <<>>, v |-> ed.v, touched |-> TRUE])]
     [] ed.op = "rm_attr"  -> IF idx = 0 THEN st ELSE [st EXCEPT !.attrs = SubSeq(@, 1, idx - 1) \o SubSeq(@, idx + 1, Len(@))]
     [] ed.op = "set_name" -> [st EXCEPT !.name = ed.n]
 RECURSIVE FoldTag(_, _, _)
@@ -103,7 +104,7 @@ FoldTag(st, eds, i) == IF i > Len(eds) THEN st ELSE FoldTag(TagEdit(st, eds[i]),
 Effective(tag, eds) == \E i \in 1..Len(eds) : eds[i].op # "rm_attr" \/ FirstN(SrcAttrs(tag), LowerSeq(eds[i].n), 1) # 0
 RECURSIVE AttrBytes(_)
 AttrBytes(attrs) == IF attrs = <<>> THEN <<>> ELSE
-  <<32>> \o (IF attrs[1].touched THEN attrs[1].n \o <<61, 34>> \o EscAttr(attrs[1].v) \o <<34>> ELSE attrs[1].raw) \o AttrBytes(Tail(attrs))
+  <<32>> \o (IF attrs[1].touched THEN attrs[1].sn \o <<61, 34>> \o EscAttr(attrs[1].v) \o <<34>> ELSE attrs[1].raw) \o AttrBytes(Tail(attrs))
 StartTagBytes(tag, el) ==
   IF el.edits = <<>> \/ ~Effective(tag, el.edits) THEN tag
   ELSE LET st == FoldTag([name |-> SrcName(tag), attrs |-> SrcAttrs(tag)], el.edits, 1)
